@@ -109,12 +109,14 @@ FlushTmp(ok) ==
      ELSE failing' = TRUE /\ pc' = (IF kind = "add_thin_pack" THEN "close_then_ret" ELSE "ret")
   /\ UNCHANGED <<kind, inp, fs, validated, res, madded, nw>>
 
+(* a failing close leaves the handle open (the injected fault replaces the call); add_thin_pack's `with` block
+   then closes it on the way out *)
 CloseTmp(ok) ==
   /\ pc \in {"flushed", "close_then_ret", "abort_close"} /\ tmp = "open"
   /\ Fault(ok) /\ Lbl("close", "tmp", ok)
-  /\ tmp' = "closed"
-  /\ IF ~ok THEN failing' = TRUE /\ pc' = "ret"
-     ELSE /\ UNCHANGED failing
+  /\ IF ~ok THEN /\ failing' = TRUE /\ UNCHANGED tmp
+                 /\ pc' = (IF kind = "add_thin_pack" /\ pc = "flushed" THEN "close_then_ret" ELSE "ret")
+     ELSE /\ tmp' = "closed" /\ UNCHANGED failing
           /\ pc' = (IF pc = "flushed" THEN "closed" ELSE IF pc = "abort_close" THEN "abort_unlink" ELSE "ret")
   /\ UNCHANGED <<kind, inp, tmpc, pack, packc, lock, lockc, idx, idxc, validated, res, madded, nw>>
 
@@ -153,12 +155,14 @@ FlushLock(ok) ==
      ELSE failing' = TRUE /\ pc' = "lock_abort"
   /\ UNCHANGED <<kind, inp, fs, validated, res, madded, nw>>
 
+(* GitFile.close: a failing close is followed by abort(): close again, remove the lock file *)
 CloseLock(ok) ==
   /\ pc \in {"lockflushed", "lock_abort"} /\ lock = "open"
   /\ Fault(ok) /\ Lbl("close", "lock", ok)
-  /\ lock' = "closed"
+  /\ lock' = (IF ok THEN "closed" ELSE lock)
   /\ IF pc = "lockflushed" /\ ok THEN pc' = "lockclosed" /\ UNCHANGED failing
-     ELSE failing' = TRUE /\ pc' = "lock_unlink"
+     ELSE /\ failing' = TRUE
+          /\ pc' = (IF pc = "lockflushed" THEN "lock_abort" ELSE "lock_unlink")
   /\ UNCHANGED <<kind, inp, tmp, tmpc, pack, packc, lockc, idx, idxc, validated, res, madded, nw>>
 
 (* the index appears atomically; afterwards the installed pack is validated (reads only) *)
@@ -174,7 +178,7 @@ ReplaceIdx(ok) ==
   /\ UNCHANGED <<kind, inp, tmp, tmpc, pack, packc, res, madded, nw>>
 
 UnlinkLock ==
-  /\ pc = "lock_unlink" /\ lock = "closed" /\ Lbl("unlink", "lock", TRUE)
+  /\ pc = "lock_unlink" /\ lock \in {"open", "closed"} /\ Lbl("unlink", "lock", TRUE)
   /\ lock' = "none" /\ lockc' = "empty" /\ pc' = "ret"
   /\ UNCHANGED <<kind, inp, failing, tmp, tmpc, pack, packc, idx, idxc, validated, res, madded, nw, faults>>
 
